@@ -60,7 +60,8 @@ func (c *MJRawComponent) Render(w io.StringWriter) error {
 		return "<" + parts[1] + attrs + ">"
 	})
 
-	if _, err := w.WriteString(content); err != nil {
+	// Author HTML gets the inline mj-style rules, like mj-text content
+	if _, err := w.WriteString(c.ApplyInlineStylesToHTMLContent(content)); err != nil {
 		return err
 	}
 	return nil
